@@ -10,6 +10,8 @@ import (
 	"encoding/json"
 	"fmt"
 	"math"
+	"os"
+	"path/filepath"
 	"reflect"
 	"sort"
 	"strings"
@@ -700,6 +702,46 @@ func (c *Case) buildScene() (gltf.PolyformScene, []gen.MeshDesc, *builder) {
 	return scene, descs, b
 }
 
+// savedBytesEqual: gltf.Save(<name>.<container>) is the stream writer applied to a file.
+func savedBytesEqual(scene gltf.PolyformScene, container string, want []byte, o *vh.Obs) *vh.Failure {
+	dir, cleanup, err := vh.TempDir("c06files")
+	if err != nil {
+		return vh.Failf("harness/tempdir", "%v", err)
+	}
+	defer cleanup()
+	path := filepath.Join(dir, "sub", "scene.v2."+container)
+	var serr error
+	if kind, val := oracle.Try(func() { serr = gltf.Save(path, scene) }); kind != "" {
+		return vh.Failf("files/save-panic-"+kind, "gltf.Save(%q) panicked: %v", filepath.Base(path), val)
+	}
+	if serr != nil {
+		return vh.Failf("files/save-error", "gltf.Save(%q): %v", filepath.Base(path), serr)
+	}
+	got, err := os.ReadFile(path)
+	if err != nil {
+		return vh.Failf("files/save-error", "gltf.Save left no readable file: %v", err)
+	}
+	if !bytes.Equal(got, want) {
+		// two writes of one scene may order JSON object members differently (maps): the saved file must
+		// then have the same length and pass the same structural validation as the stream output
+		if len(got) != len(want) {
+			return vh.Failf("files/saved-length-differs", "gltf.Save(%q) wrote %d bytes, the %s stream writer writes %d", filepath.Base(path), len(got), container, len(want))
+		}
+		p, f := parse(got, container == "gltf")
+		if f == nil {
+			f = p.validate(&vh.Obs{})
+		}
+		if f != nil {
+			f.Sig = "files/saved-file/" + f.Sig
+			return f
+		}
+		o.Class("files/save-differs-in-member-order-only/" + container)
+		return nil
+	}
+	o.Class("files/save-equals-stream-writer/" + container)
+	return nil
+}
+
 func write(scene gltf.PolyformScene, text bool) ([]byte, *vh.Failure) {
 	buf := &bytes.Buffer{}
 	var err error
@@ -757,6 +799,11 @@ func runCase(c Case, o *vh.Obs) *vh.Failure {
 	out, f := write(scene, c.Text)
 	if f != nil {
 		return f
+	}
+	if (len(out)/4)%16 == 3 { // one case in sixteen: gltf.Save picks the container from the extension and must write the same bytes
+		if f := savedBytesEqual(scene, container, out, o); f != nil {
+			return f
+		}
 	}
 	p, f := parse(out, c.Text)
 	if f != nil {
